@@ -19,7 +19,7 @@ from vf import refcoding as rc
 PROPERTY = "C05"
 RULE = (
     "cases = (formula with 1-3 group items, frame): effect expressions = intercept only / numeric / categorical / "
-    "scale / poly / interactions / sums, with and without `0 +`; grouping expressions = g, g:s, g + s, g/s, C(k); "
+    "scale / poly / interactions / sums, with and without `0 +`; grouping expressions = g, g:s, g + s, g/s, C(k), C(g), C(s); "
     "frames = replicated complete factorials (both clauses) or arbitrary frames (clause A); exhaustive part = all "
     "effect families of <= 2 terms over f h x z x {g, g:s} x group intercept; distinct = distinct (formula, frame); "
     "non-trivial = an effect with a categorical factor and no (1|g), or an interaction effect, or two effect terms "
@@ -33,7 +33,7 @@ ASSUMPTIONS = [
 
 CAT_E = ("f", "h")
 NUM_E = ("x", "z", "scale(x)", "poly(x, 2)")
-GFACTORS = ("g", "s", "C(k)", "k", (":", ("var", "g"), ("var", "s")), ("+", ("var", "g"), ("var", "s")),
+GFACTORS = ("g", "s", "C(k)", "k", "C(s)", "C(g)", (":", ("var", "g"), ("var", "s")), ("+", ("var", "g"), ("var", "s")),
             ("/", ("var", "g"), ("var", "s")), (":", ("var", "s"), ("var", "g")))
 
 
@@ -50,7 +50,7 @@ def cells_of(factor, frame):
     for a in factor:
         vals = frame[rc.atom_base(a)].tolist()
         col = frame[rc.atom_base(a)]
-        if hasattr(col.dtype, "ordered") and col.dtype.ordered and a in ("g", "s", "f", "h", "k"):
+        if hasattr(col.dtype, "ordered") and col.dtype.ordered:  # a declared order is respected, also through C()
             lv = list(col.dtype.categories)
         else:
             lv = sorted(set(vals))
